@@ -440,6 +440,18 @@ func TestVerifC06(t *testing.T) {
 			runHistory(pi, hist, "truncate/"+k)
 		}
 	}
+	// ---- 2b. long histories of valid frames: the engine buffers up to ~2000 records between the processor and
+	// the logger, so a record must still read the same after thousands of later frames (no recycled storage)
+	if run.Batch() < len(procs) {
+		pi := run.Batch()
+		kind := map[uint8]string{oracle.ProtoTCP: "tcp", oracle.ProtoICMP: "icmp", 0: "arp"}[procs[pi].proto]
+		var hist [][]byte
+		for i := 0; i < 3000; i++ {
+			hist = append(hist, c06valid(rng, procs[pi].link, kind))
+		}
+		runHistory(pi, hist, "long/"+kind)
+		run.Count("long_histories", 1)
+	}
 	// ---- 3. seeded mutation histories
 	nh := run.Pick(2500, 60000)
 	for h := 0; h < nh; h++ {
